@@ -316,7 +316,7 @@ func (s *scripted) arr() string {
 // beh: what peer p does with a request for height h: -1 fail, otherwise the height of the block it returns
 type behaviour func(p int, h int64) int64
 
-func runScripted(e *env, r *gen.Rand, npeers int, heights []int64, beh behaviour, order func(fetching []int) int, stallAt int) {
+func runScripted(e *env, r *gen.Rand, npeers int, heights []int64, beh behaviour, order func(fetching []int) int, stallAt int, announced map[int]int64) {
 	s := &scripted{e: e, r: r, npeers: npeers}
 	e.auto = nil
 	for i, id := range e.peers {
@@ -324,7 +324,17 @@ func runScripted(e *env, r *gen.Rand, npeers int, heights []int64, beh behaviour
 		if i >= npeers {
 			h = -5 // not part of this scenario
 		}
+		if a, ok := announced[i]; ok && i < npeers {
+			h = a
+		}
 		e.pinfo.Set(id, h)
+	}
+	phOps := func(sc *scripted) {
+		for i := 0; i < npeers; i++ {
+			if a, ok := announced[i]; ok {
+				sc.op(fmt.Sprintf("ph %d %d", i, a), "ok")
+			}
+		}
 	}
 	pids := e.pids[:npeers]
 	s.tasks = e.p.VerifInitJob(pids, "verif-task")
@@ -334,6 +344,7 @@ func runScripted(e *env, r *gen.Rand, npeers int, heights []int64, beh behaviour
 		hs = append(hs, fmt.Sprint(h))
 	}
 	s.op(fmt.Sprintf("init %d %s", npeers, strings.Join(hs, ",")), "ok")
+	phOps(s)
 	e.w.TakePosts()
 	for w := range s.ws {
 		s.op(fmt.Sprintf("start %d", w), s.start(w, false))
@@ -418,6 +429,7 @@ func runScripted(e *env, r *gen.Rand, npeers int, heights []int64, beh behaviour
 		s2 := &scripted{e: e, r: r, npeers: npeers, lines: s.lines}
 		s2.ws = []*worker{{height: old.height, failed: map[int]bool{}}}
 		s2.op(fmt.Sprintf("init %d %d", npeers, old.height), "ok")
+		phOps(s2)
 		s2.op("start 0", s2.start(0, true))
 		for s2.ws[0].pending != nil {
 			wk := s2.ws[0]
@@ -445,7 +457,8 @@ func runScripted(e *env, r *gen.Rand, npeers int, heights []int64, beh behaviour
 	for _, wk := range s.ws {
 		servable := false
 		for p := 0; p < npeers; p++ {
-			if beh(p, wk.height) == wk.height {
+			a, low := announced[p]
+			if beh(p, wk.height) == wk.height && !(low && a < wk.height) {
 				servable = true
 			}
 		}
@@ -585,9 +598,11 @@ func main() {
 	// removed by the first worker and finds B twice in its view
 	replay(e, r, witnessReask)
 	// witness 2: wrong height accepted
-	runScripted(e, r, 1, []int64{7}, func(p int, h int64) int64 { return h + 100 }, func(f []int) int { return 0 }, 0)
+	runScripted(e, r, 1, []int64{7}, func(p int, h int64) int64 { return h + 100 }, func(f []int) int { return 0 }, 0, nil)
 	// witness 3: silent peer
-	runScripted(e, r, 2, []int64{4}, func(p int, h int64) int64 { return h }, func(f []int) int { return 0 }, 1)
+	runScripted(e, r, 2, []int64{4}, func(p int, h int64) int64 { return h }, func(f []int) int { return 0 }, 1, nil)
+	// eight peers that all fail: eight tries, then "no peer" (well below the limit of 50 tries)
+	runScripted(e, r, 8, []int64{3}, func(p int, h int64) int64 { return -1 }, func(f []int) int { return 0 }, 0, nil)
 	n := gen.Scale(150, 4000)
 	for i := 0; i < n; i++ {
 		npeers := 1 + r.Intn(5)
@@ -615,8 +630,17 @@ func main() {
 		if r.Chance(1, 12) {
 			stallAt = 1 + r.Intn(4)
 		}
+		// now and then one peer announces a height at / below / between the requested ones; the last peer then
+		// serves everything, so that no worker ends up sleeping on a list of peers that are all too low
+		var announced map[int]int64
+		if npeers >= 2 && r.Chance(1, 5) {
+			announced = map[int]int64{r.Intn(npeers - 1): base + int64(r.Intn(nh+1)) - 1}
+			for _, h := range hs {
+				tab[[2]int64{int64(npeers - 1), h}] = h
+			}
+		}
 		runScripted(e, r, npeers, hs, func(p int, h int64) int64 { return tab[[2]int64{int64(p), h}] },
-			func(f []int) int { return r.Intn(len(f)) }, stallAt)
+			func(f []int) int { return r.Intn(len(f)) }, stallAt, announced)
 	}
 	for i := 0; i < gen.Scale(25, 400); i++ {
 		npeers := 1 + r.Intn(6)
